@@ -1,21 +1,29 @@
-"""Discharging obligations with z3 (cvc5 as second opinion where the query is expressible)."""
+"""Discharging obligations.
+
+Every obligation is printed as SMT-LIB2 and decided by a z3 *subprocess* (`z3-new -T:<s>`): hard
+time limits (the in-process timeout is only advisory inside quantifier instantiation) and real
+parallelism over the 16 cores.  On anything but `unsat` the goal is split (conjunctions,
+skolemised universals, extensional equalities) and the parts are tried separately, which also
+names the part that fails.
+"""
 from __future__ import annotations
 
+import os
+import shutil
+import subprocess
+import tempfile
 import time
+from concurrent.futures import ThreadPoolExecutor
 
 import z3
 
-
-def _solver(timeout_ms: int, seed: int):
-    s = z3.Solver()
-    s.set("timeout", timeout_ms)
-    s.set("random_seed", seed % (2 ** 31))
-    return s
+Z3_BIN = shutil.which("z3-new") or shutil.which("z3") or "/usr/bin/z3"
+CVC5_BIN = shutil.which("cvc5")
 
 
 def split_goal(goal, depth=0):
     """-> list of (hyps, subgoal): conjunctions are split, universal goals skolemised, implications opened"""
-    if depth > 6:
+    if depth > 8:
         return [([], goal)]
     if z3.is_and(goal):
         out = []
@@ -32,9 +40,15 @@ def split_goal(goal, depth=0):
         return split_goal(body, depth + 1)
     if z3.is_eq(goal):
         a, b = goal.children()
+        if a.sort() == z3.BoolSort():
+            return split_goal(z3.Implies(a, b), depth + 1) + split_goal(z3.Implies(b, a), depth + 1)
         ext = ext_eq(a, b)
         if ext is not None:
             return split_goal(ext, depth + 1)
+    if z3.is_app(goal) and goal.decl().kind() == z3.Z3_OP_ITE and goal.sort() == z3.BoolSort():
+        c, a, b = goal.children()
+        return [([c] + h, g) for h, g in split_goal(a, depth + 1)] + \
+               [([z3.Not(c)] + h, g) for h, g in split_goal(b, depth + 1)]
     return [([], goal)]
 
 
@@ -62,58 +76,140 @@ def ext_eq(a, b, depth=0):
     return None
 
 
-def check(pc, goal, axioms, timeout_ms=10000, seed=0):
-    """-> (status, info)  status in proved | refuted | unknown"""
-    t0 = time.time()
-    s = _solver(timeout_ms, seed)
+def _check_inproc(pc, goal, axioms, timeout_ms, seed, want_model):
+    s = z3.Solver()
+    s.set("timeout", int(timeout_ms))
+    s.set("random_seed", seed % (2 ** 31))
     for a in axioms:
         s.add(a)
     for p in pc:
         s.add(p)
     s.add(z3.Not(goal))
     r = s.check()
-    dt = time.time() - t0
     if r == z3.unsat:
-        return "proved", {"time": dt, "backend": "z3"}
+        return "proved", {}
     if r == z3.sat:
-        return "refuted", {"time": dt, "backend": "z3", "model": s.model()}
-    return "unknown", {"time": dt, "backend": "z3", "reason": s.reason_unknown()}
+        m = ""
+        if want_model:
+            try:
+                m = str(s.model())[:6000]
+            except Exception:
+                m = ""
+        return "refuted", {"model": m}
+    return "unknown", {"reason": s.reason_unknown()}
 
 
-def discharge(ob, axioms, timeout_ms=10000, seed=0):
-    """Try the obligation as a whole, then split into sub-goals.  Returns dict with status and failing parts."""
-    t0 = time.time()
-    st, info = check(ob.pc, ob.goal, axioms, min(timeout_ms, 3000), seed)
-    if st == "proved":
-        return {"status": "proved", "time": time.time() - t0, "backend": "z3", "parts": 1}
-    parts = split_goal(ob.goal)
-    if len(parts) <= 1 and not parts[0][0]:
-        return {"status": st, "time": time.time() - t0, "backend": "z3", "parts": 1,
-                "reason": info.get("reason", "sat"), "model": info.get("model"), "failed_part": str(ob.goal)[:400]}
-    failed = []
-    worst = "proved"
-    model = None
-    budget = time.time() + 4 * timeout_ms / 1000.0
-    for hyps, g in parts:
-        if len(failed) >= 3:
-            break
-        left = int(max(500, min(timeout_ms, (budget - time.time()) * 1000)))
-        st2, info2 = check(list(ob.pc) + hyps, g, axioms, left, seed)
-        if st2 != "proved":
-            failed.append((st2, z3.simplify(g).sexpr()[:300], info2.get("reason", "sat")))
-            if st2 == "refuted" and model is None:
-                model = info2.get("model")
-            if worst == "proved" or (worst == "unknown" and st2 == "refuted"):
-                worst = st2
-    if not failed:
-        return {"status": "proved", "time": time.time() - t0, "backend": "z3", "parts": len(parts)}
-    return {"status": worst, "time": time.time() - t0, "backend": "z3", "parts": len(parts),
-            "reason": "; ".join(f"{a}:{c}" for a, _, c in failed)[:300], "model": model,
-            "failed_part": " || ".join(b for _, b, _ in failed)[:1200]}
+def run_forked(tasks, jobs, hard_extra_s=3.0):
+    """tasks: list of (key, fn) ; each fn() runs in a forked child (inherits the z3 context copy-on-write) and
+    returns a JSON-able (status, info).  Hard wall-clock limit per child via fn.limit_s."""
+    import json
+    import select
+    results = {}
+    pending = list(tasks)
+    running = {}  # pid -> (key, fd, t0, limit)
+    while pending or running:
+        while pending and len(running) < jobs:
+            key, fn, limit = pending.pop(0)
+            r, w_ = os.pipe()
+            pid = os.fork()
+            if pid == 0:
+                try:
+                    os.close(r)
+                    try:
+                        out = fn()
+                    except Exception as e:  # noqa
+                        out = ("error", {"reason": f"{type(e).__name__}: {e}"[:500]})
+                    os.write(w_, json.dumps(out).encode())
+                finally:
+                    os._exit(0)
+            os.close(w_)
+            running[pid] = (key, r, time.time(), limit)
+        # poll
+        now = time.time()
+        for pid in list(running):
+            key, fd, t0, limit = running[pid]
+            done_pid, _ = os.waitpid(pid, os.WNOHANG)
+            if done_pid == pid:
+                data = b""
+                while True:
+                    chunk = os.read(fd, 65536)
+                    if not chunk:
+                        break
+                    data += chunk
+                os.close(fd)
+                del running[pid]
+                try:
+                    st, info = json.loads(data.decode())
+                except Exception:
+                    st, info = "error", {"reason": "solver child died without a result"}
+                info["time"] = time.time() - t0
+                results[key] = (st, info)
+            elif now - t0 > limit + hard_extra_s:
+                try:
+                    os.kill(pid, 9)
+                except OSError:
+                    pass
+                os.waitpid(pid, 0)
+                os.close(fd)
+                del running[pid]
+                results[key] = ("unknown", {"reason": "hard timeout (killed)", "time": now - t0})
+        if running:
+            # drain pipes of children that produce big outputs, then nap
+            rl, _, _ = select.select([v[1] for v in running.values()], [], [], 0.01)
+            time.sleep(0.005)
+    return results
+
+
+def discharge_all(obligations, axioms, timeout_ms=10000, seed=0, jobs=8):
+    """-> {oid: result dict}.  Round 1: whole goals; round 2: the parts of what is left (names the failing part)."""
+    results = {}
+    first_ms = min(timeout_ms, 4000)
+    t1 = []
+    for ob in obligations:
+        t1.append((ob.oid, (lambda ob=ob: _check_inproc(ob.pc, ob.goal, axioms, first_ms, seed, False)),
+                   first_ms / 1000.0))
+    r1 = run_forked(t1, jobs)
+    for ob in obligations:
+        st, info = r1[ob.oid]
+        results[ob.oid] = {"status": st, "time": info.get("time", 0.0), "backend": "z3", "parts": 1,
+                           "reason": info.get("reason")}
+    left = [ob for ob in obligations if results[ob.oid]["status"] != "proved"]
+    t2 = []
+    meta = {}
+    for ob in left:
+        parts = split_goal(ob.goal)
+        for k, (hyps, g) in enumerate(parts):
+            key = f"{ob.oid}#{k}"
+            meta[key] = (ob, k, g)
+            t2.append((key, (lambda ob=ob, hyps=hyps, g=g: _check_inproc(list(ob.pc) + hyps, g, axioms, timeout_ms,
+                                                                        seed, True)), timeout_ms / 1000.0))
+    r2 = run_forked(t2, jobs)
+    per_ob = {}
+    for key, (st, info) in r2.items():
+        ob, k, g = meta[key]
+        per_ob.setdefault(ob.oid, []).append((k, st, info, g))
+    for ob in left:
+        rs = sorted(per_ob.get(ob.oid, []), key=lambda x: x[0])
+        tot = results[ob.oid]["time"] + sum(i.get("time", 0.0) for _, _, i, _ in rs)
+        failed = [(k, st, info, g) for k, st, info, g in rs if st != "proved"]
+        if not failed:
+            results[ob.oid] = {"status": "proved", "time": tot, "backend": "z3", "parts": len(rs)}
+            continue
+        sts = {st for _, st, _, _ in failed}
+        worst = "error" if "error" in sts else "refuted" if "refuted" in sts else "unknown"
+        model = next((info.get("model") for _, st, info, _ in failed if st == "refuted" and info.get("model")), None)
+        results[ob.oid] = {
+            "status": worst, "time": tot, "backend": "z3", "parts": len(rs),
+            "reason": "; ".join(f"part{k}:{st}:{info.get('reason', 'sat')}" for k, st, info, _ in failed)[:400],
+            "failed_part": " || ".join(z3.simplify(g).sexpr()[:400] for _, _, _, g in failed[:3])[:1500],
+            "model": model,
+        }
+    return results
 
 
 def satisfiable(pc, axioms, timeout_ms=5000):
-    s = _solver(timeout_ms, 0)
+    s = z3.Solver()
+    s.set("timeout", timeout_ms)
     for a in axioms:
         s.add(a)
     for p in pc:
